@@ -824,6 +824,11 @@ class Ctx:
             Obligation(name, kind, label, hyps, g, self.target, self.path_id,
                        self.cur_line, expect, meta))
 
+    def lemma(self, label, formula):
+        """arithmetic lemma: proved on its own (no hypotheses), then available as a hypothesis"""
+        self.oblige("lemma", label, formula, nohyps=True)
+        self.assume(formula)
+
     def cover(self, label, extra=True):
         """reachability guard: hyps ∧ extra must be satisfiable"""
         self.oblige("cover", label, Not(extra) if extra is not True else False, expect="sat")
@@ -1685,6 +1690,10 @@ class Interp:
     def comprehension(self, n, env):
         out = []
         local = Env({}, env)
+        if len(n.generators) == 1 and not n.generators[0].ifs and isinstance(n.generators[0].target, ast.Name):
+            itv = self.eval(n.generators[0].iter, local)
+            if isinstance(itv, SymRange) and itv.concrete() is None:
+                return LazyList(self, n.elt, n.generators[0].target.id, itv, env)
 
         def rec(gi):
             if gi == len(n.generators):
@@ -2028,6 +2037,20 @@ def seq_at(v, j):
     return r
 
 
+class LazyList(PyObj):
+    """[elt for v in range(symbolic)]: element k is `elt` evaluated with v = range item k (pure expressions only)"""
+
+    def __init__(self, interp, elt, var, rng, env):
+        self.interp, self.elt, self.var, self.rng, self.env = interp, elt, var, rng, env
+
+    def len_(self, ctx):
+        return self.rng.count()
+
+    def at(self, k):
+        local = Env({self.var: self.rng.item(k)}, self.env)
+        return self.interp.eval(self.elt, local)
+
+
 class StrFormat(PyObj):
     """a formatted string kept as (template, args): the contract inspects fields"""
 
@@ -2308,6 +2331,9 @@ def b_enumerate(ctx, xs, start=0):
 
 
 def b_zip(ctx, *xs):
+    for x in xs:
+        if isinstance(x, (Sym, int, float, Fraction, NaNType)) and not isinstance(x, bool):
+            raise PyRaise(ExcValue('TypeError', ("'float' object is not iterable",)))
     if any(isinstance(x, PyObj) and hasattr(x, 'zip_') for x in xs):
         for x in xs:
             if hasattr(x, 'zip_'):
